@@ -25,4 +25,6 @@ def jobs(tier):
     add('min_stringref', 'h_min_stringref', ['C06'], 4, {}, 300, 'min_length_for_stringref == stringref spec table', 'all 2^64 indices')
     for k in (0, 1, 2):
         add('stringref_k%d' % k, 'h_stringref', ['C05', 'C07'], 10, dict(KREF=k, N=2), 600, 'tag 25 string reference: index < registered strings resolves to that string, otherwise stringref_too_large; no std::out_of_range', '%d registered strings, indices 0,1,2,3,23' % k, mem_gb=6)
+    for n in (0, 1, 2, 3):   # n >= 2: the exact-product oracle is a 64x64 multiply/divide equivalence (no verdict in 10 min on any back end, also with 8-bit later extents): safety assertions only
+        add('mdsize_n%d' % n, 'h_mdsize', ['C05'], 6, dict(NEXT=n, **(dict(SAFETY_ONLY=1) if n >= 2 else {})), 600, 'calculate_mdarray_size (extents of CBOR tag 40/1040 arrays, from input bytes): no division by zero, no overflow trap, terminates' + ('; an accepted size is the exact product' if n < 2 else '') + ' [safety mode]', 'any %d uint64 extents' % n, safety=True)
     return J
